@@ -497,12 +497,17 @@ bool qtreetbl_removeobj(qtreetbl_t *tbl, const void *name, size_t namesize) {
     }
 
     qtreetbl_lock(tbl);
-    errno = 0;
+    size_t numbefore = tbl->num;
     tbl->root = remove_obj(tbl, tbl->root, name, namesize);
     if (tbl->root != NULL) {
         tbl->root->red = false;
     }
-    bool removed = (errno != ENOENT) ? true : false;
+    // judge by the key count, not by errno: the user's compare function
+    // runs in between and may leave any value there.
+    bool removed = (tbl->num < numbefore) ? true : false;
+    if (removed == false) {
+        errno = ENOENT;
+    }
     qtreetbl_unlock(tbl);
 
     return removed;
